@@ -172,7 +172,7 @@ pub fn all() -> Vec<CheckDef> {
             id: "C07",
             run: run_c07,
             replay: replay_c07,
-            rule: "channel constraint vectors (+k, +l around occupancy, +i, ban/except/invex masks derived from candidate sources, invitations, max_joins 1..3) set up by a founder, then JOINs (single and comma lists with per-channel keys) by non-members; oracle = admission predicate of the statement with the reference glob; refused => >=1 numeric and only numerics of failing conditions, nothing announced, probes unchanged; accepted => echo+353/366, announced to every member, invitation consumed; non-trivial = JOIN to an existing channel with >=2 constraint kinds active; distinct by (constraint vector, outcome, failing numerics)",
+            rule: "channel constraint vectors (+k, +l around occupancy, +i, ban/except/invex masks derived from candidate sources, invitations, max_joins 1..3) set up by a founder, then JOINs (single and comma lists with per-channel keys) by non-members; oracle = admission predicate of the statement with the reference glob; refused => >=1 numeric and only numerics of failing conditions, nothing announced, probes unchanged; accepted => echo+353/366, announced to every member, invitation consumed; probes: admission by two outsiders after every MODE, an invitation is used up by the JOIN it admits and survives a JOIN refused for another reason (key, limit) first; non-trivial = JOIN to an existing channel with >=2 constraint kinds active; distinct by (constraint vector, outcome, failing numerics)",
             level: "exploration",
             assumptions: SIM_ASSUMPTIONS,
         },
@@ -204,7 +204,7 @@ pub fn all() -> Vec<CheckDef> {
             id: "C11",
             run: run_c11,
             replay: replay_c11,
-            rule: "configs with 1-2 operators (mask none/matching/non-matching), default modes incl. o/O; sequences of OPER (right/wrong name/password), MODE own/foreign nick +-{i,o,O,w}, NICK onto operator names, KILL/DIE/SQUIT/WALLOPS/STATS from every privilege level; oracle = privilege ledger (only OPER/default modes confer; -o/-O/disconnect remove), 313/221/WALLOPS/KILL behaviour; non-trivial = a refused OPER or MODE +o/+O attempt together with a privileged verb; distinct by (routes attempted, verbs)",
+            rule: "configs with 1-2 operators (mask none/matching/non-matching, constraining nick / user / host, one entry sometimes written twice), default modes incl. o/O; sequences of OPER (right/wrong name/password), MODE own/foreign nick +-{i,o,O,w}, NICK onto operator names, KILL/DIE/SQUIT/WALLOPS/STATS from every privilege level; oracle = privilege ledger (only OPER/default modes confer; -o/-O/disconnect remove), 313/221/WALLOPS/KILL behaviour; non-trivial = a refused OPER or MODE +o/+O attempt together with a privileged verb; distinct by (routes attempted, verbs)",
             level: "exploration",
             assumptions: SIM_ASSUMPTIONS,
         },
@@ -212,7 +212,7 @@ pub fn all() -> Vec<CheckDef> {
             id: "C15",
             run: run_c15,
             replay: replay_c15,
-            rule: "user state vectors (memberships with ranks in 1-3 channels, +i/+w, operator via OPER, away, pending invitation to a +i channel) x new nick kinds (free, taken, previously used, invalid), repeated; oracle = after an accepted NICK all probes (NAMES prefixes, WHO, WHOIS 313/319, MODE, 301, WALLOPS, JOIN by invitation, WHOWAS, ISON) from every viewer show the state under the new nick; refused => nothing changes; non-trivial = accepted rename of a user with >=2 kinds of attached state; distinct by (state vector, fresh/reused nick)",
+            rule: "user state vectors (memberships with ranks in 1-3 channels, +i/+w, operator via OPER, away, pending invitation to a +i channel) x new nick kinds (free, taken, previously used, invalid), repeated; oracle = after an accepted NICK all probes (NAMES prefixes, WHO, WHOIS 313/319, MODE, 301, WALLOPS, JOIN by invitation, WHOWAS, ISON) from every viewer show the state under the new nick, and WHOWAS shows the nickname given up also once somebody holds it again; refused => nothing changes; non-trivial = accepted rename of a user with >=2 kinds of attached state; distinct by (state vector, fresh/reused nick)",
             level: "exploration",
             assumptions: SIM_ASSUMPTIONS,
         },
@@ -228,7 +228,7 @@ pub fn all() -> Vec<CheckDef> {
             id: "C17",
             run: c17::run,
             replay: c17::replay,
-            rule: "worlds with ping_timeout p in {1..200 s} and pong_timeout q with q<p, q=p, q>p; 1-4 clients each with a response pattern (always, always with another token, never, stops after k=1..5 answers) plus unrelated traffic (own PINGs with tokens, PRIVMSGs); 4-11 ping cycles in virtual time; oracle = PONG echoes the token; server PINGs at registration + i*p, none missing while the client is connected (answered or not); unsolicited PONGs answer nothing; PING with a second parameter echoes the token; responders never closed; a client the keep-alive dropped is gone for a fresh connection (ISON); a client silent from its k-th PING on gets ERROR and EOF by t_k + q + one simulation step; non-trivial = client with >= 2 PING cycles that is not a plain responder under q<p; distinct by (relation, pattern class, k)",
+            rule: "worlds with ping_timeout p in {1..200 s} and pong_timeout q with q<p, q=p, q>p; 1-4 clients each with a response pattern (always, always with another token, never, stops after k=1..5 answers) plus unrelated traffic (own PINGs with tokens, PRIVMSGs); 4-11 ping cycles in virtual time; oracle = PONG echoes the token; server PINGs at registration + i*p, none missing while the client is connected (answered or not); unsolicited PONGs answer nothing; PING with a second parameter, with an empty token, with a token ending in a blank, with a 1975-byte token or with the client's own `:nick` source in front echoes the token; responders never closed; a client the keep-alive dropped is gone for a fresh connection (ISON); a client silent from its k-th PING on gets ERROR and EOF by t_k + q + one simulation step; non-trivial = client with >= 2 PING cycles that is not a plain responder under q<p; distinct by (relation, pattern class, k)",
             level: "exploration",
             assumptions: &["Tokio paused clock (virtual time) on a single-threaded runtime; the simulation step (min(p,q)/4, 100..1000 ms) is the timing tolerance", "no real-time tier"],
         },
@@ -268,7 +268,7 @@ pub fn all() -> Vec<CheckDef> {
             id: "C14",
             run: run_c14,
             replay: replay_c14,
-            rule: "mask/text pairs: masks derived from the text by wildcarding/lengthening edits, independent random pairs, and all pairs of strings of length <= 4/5 over {a b * ? e-acute}; non-trivial = mask has a wildcard and a literal and a one-edit neighbour of the text answers differently, or a multi-byte pair with a wildcard; distinct by (wildcard skeleton, text length bucket, answer, ascii/multibyte); wire_agreement (SIM, model-based): ban/except/invite-exception masks, operator mask and configured-user mask derived from real sources (16 mask shapes incl. partial forms) decide JOIN 474/473, OPER 491/381, registration ERROR/001, WHO/WHOIS mask result sets exactly as the reference glob says, and list masks are announced/listed in normalised form",
+            rule: "mask/text pairs: masks derived from the text by wildcarding/lengthening edits, independent random pairs, and all pairs of strings of length <= 4/5 over {a b * ? e-acute}; non-trivial = mask has a wildcard and a literal and a one-edit neighbour of the text answers differently, or a multi-byte pair with a wildcard; distinct by (wildcard skeleton, text length bucket, answer, ascii/multibyte); wire_agreement (SIM, model-based): ban/except/invite-exception masks, operator mask and configured-user mask derived from real sources (16 mask shapes incl. partial forms) decide JOIN 474/473, OPER 491/381, registration ERROR/001, WHO/WHOIS mask result sets exactly as the reference glob says, and list masks are announced/listed in normalised form; newcomers whose user name contains '@', '!' or '*' (the text a mask is matched against is the whole nick!user@host) meet host-wide bans",
             level: "exploration",
             assumptions: &["reference glob (refglob.rs, textbook DP over Unicode scalar values, self-tested)", "SIM engine + reference model for the wire part"],
         },
